@@ -45,7 +45,7 @@ pub type KCoord = (u8, u16);
 pub type Layers<'a, const C: usize, const R: usize, T = core::convert::Infallible> =
     &'a [[[Action<'a, T>; C]; R]];
 
-const QUEUE_SIZE: usize = 32;
+pub(crate) const QUEUE_SIZE: usize = 32;
 pub type QueueLen = u8;
 
 #[test]
